@@ -544,6 +544,15 @@ func c11Strings(ctx *fw.Ctx, forName bool) []string {
 		"\\5C", "\\\\", "\\22", "a\\5Cb", "\\", "\"", "\"\"", "\\0", "\\0g", "\\G0", "%", "@", "!", "$", "#0", "a b", " a", "a ", "\t", "\n", "\r\n", "日本語", "\xff\xfe", "entry", "true", "null", "x86_fp80", "c\"x\"", ".", "-", "_", "$", "..", "a.b-c_d$e"} {
 		add(s)
 	}
+	// names spelled like keywords of the grammar: a name token that starts with
+	// the sigil of its slot must still be read as a name
+	for _, s := range specializedNodeKeywords {
+		add(s)
+		add(s + "x")
+	}
+	for _, s := range []string{"distinct", "type", "global", "define", "declare", "label", "void", "i32", "ptr", "opaque", "zeroinitializer", "undef", "poison", "none", "blockaddress", "x", "c", "to", "any", "comdat", "dbg", "srcloc", "align", "section", "gc", "asm", "attributes", "datalayout", "triple"} {
+		add(s)
+	}
 	rng := ctx.Rand("c11strings")
 	n := ctx.Pick(300, 3000)
 	for i := 0; i < n; i++ {
@@ -818,8 +827,18 @@ func c11LLVMBisect(r *fw.Rec, sl c11Slot, ss []string) {
 	}
 }
 
+// specializedNodeKeywords are the names the grammar of llir/ll reserves after
+// `!` for specialized metadata nodes; LLVM reads `!DIFile = !{}` and
+// `, !DIFile !0` as a named metadata definition and an attachment.
+var specializedNodeKeywords = []string{"DIArgList", "DIBasicType", "DICommonBlock", "DICompileUnit", "DICompositeType", "DIDerivedType", "DIEnumerator", "DIExpression", "DIFile", "DIGlobalVariable", "DIGlobalVariableExpression", "DIImportedEntity", "DILabel", "DILexicalBlock", "DILexicalBlockFile", "DILocalVariable", "DILocation", "DIMacro", "DIMacroFile", "DIModule", "DINamespace", "DIObjCProperty", "DIStringType", "DISubprogram", "DISubrange", "DISubroutineType", "DITemplateTypeParameter", "DITemplateValueParameter", "GenericDINode"}
+
 // c11Class names the class of a string (for violation keys).
 func c11Class(s string) string {
+	for _, k := range specializedNodeKeywords {
+		if s == k {
+			return "specialized-node-keyword"
+		}
+	}
 	allDigits := len(s) > 0
 	hasQuote, hasBS, hasCtl, hasHigh, hasNul := false, false, false, false, false
 	for i := 0; i < len(s); i++ {
